@@ -322,4 +322,93 @@ def run(ctx):
                 rep.unk('B2', f.name, str(e))
         if kind == 'vec':
             setm_rule(ctx, C, rep)
+        sorted_guards(ctx, C, rep)
+        import stale
+        pidx = stale.field_index(C.m, 'a_%s' % kind, 'ptr_')
+        for f in fns:
+            if f.name in ('a_vec_setm', 'a_buf_setm') or pidx is None:
+                continue
+            stale.check(rep, 'B7', f, pidx, {'a_vec_setm', 'a_buf_setm'})
+    swap_direction(ctx, rep)
+    rep.floor('B5', 1)
+    rep.floor('B6', 4)
     rep.floor('B2', 50)
+
+
+def sorted_guards(ctx, C, rep):
+    """B6: sort / sorted-insert routines skip their comparisons only when at most one element is present"""
+    import sortguard, dwarf
+    md = dwarf.MD(C.m)
+    st = md.structs().get('a_%s' % C.kind)
+    numidx = [i for i, m_ in enumerate(st['members']) if m_['name'] == 'num_'][0]
+    for suffix in ('sort_fore', 'sort_back'):
+        f = C.m.functions.get('a_%s_%s' % (C.kind, suffix))
+        if f is None or f.error:
+            rep.unk('B6', 'a_%s_%s' % (C.kind, suffix), 'anchor vanished')
+            continue
+        sortguard.check(rep, 'B6', f, numidx, 1, 'two elements may be out of order')
+
+
+def swap_direction(ctx, rep):
+    """B5: the full-container removal rotates the removed element to the end by a_swap(p, p + siz_, n) on OVERLAPPING ranges;
+    that is only a rotation if a_swap exchanges lhs[k] and rhs[k] for k = 0, 1, 2, ... in ascending order"""
+    import scev
+    from symx import Unsupported as U
+    # (1) the call site really overlaps: second argument = first argument + siz_
+    sites = 0
+    for kind in ('vec', 'buf'):
+        m = ctx.module(kind)
+        f = m.functions.get('a_%s_remove' % kind)
+        if f is None:
+            continue
+        for i in f.instrs():
+            if i.op == 'call' and i.x.get('callee') is not None and i.x['callee'].k == 'global' and i.x['callee'].v == 'a_swap':
+                a0, a1 = i.ops[0], i.ops[1]
+                d1 = f.defs.get(a1.v) if a1.k == 'reg' else None
+                while d1 is not None and d1.op == 'bitcast':
+                    d1 = f.defs.get(d1.ops[0].v) if d1.ops[0].k == 'reg' else None
+                d0 = f.defs.get(a0.v) if a0.k == 'reg' else None
+                while d0 is not None and d0.op == 'bitcast':
+                    d0 = f.defs.get(d0.ops[0].v) if d0.ops[0].k == 'reg' else None
+                if d1 is not None and d1.op == 'gep' and d0 is not None and d1.ops[0].k == 'reg' and d1.ops[0].v == d0.res:
+                    sites += 1
+    mod = ctx.module('a', passes='sroa,mem2reg,instsimplify,simplifycfg,loop-simplify,lcssa')
+    fn = mod.functions.get('a_swap')
+    if fn is None or fn.error:
+        rep.unk('B5', 'a_swap', 'anchor vanished')
+        return
+    rep.functions.add('a_swap')
+    if not sites:
+        rep.ok('B5', 'a_swap', 'no overlapping use of a_swap in the removal routines: its direction does not matter')
+        return
+    try:
+        a = scev.Aff(fn)
+        tree = a.emit()
+    except U as e:
+        rep.unk('B5', 'a_swap', 'outside the affine fragment: %s' % e)
+        return
+    loops = [t for t in tree if t[0] == 'loop']
+    ok = False
+    why = 'not a single loop of two exchanging stores'
+    if len(loops) == 1:
+        cnt, T, body = loops[0][1], loops[0][2], loops[0][3]
+        st = [t for t in body if t[0] == 'store']
+        if len(st) == 2 and T is not None:
+            (s1, s2) = st
+            k1, k2 = sp.expand(s1[2]), sp.expand(s2[2])
+            siz = a.params.get(fn.params[2][1])
+            exch = s1[3].func == scev.ld and s2[3].func == scev.ld and s1[3].args[0] == s2[1] and s2[3].args[0] == s1[1] and \
+                sp.expand(s1[3].args[1] - k2) == 0 and sp.expand(s2[3].args[1] - k1) == 0 and s1[3].args[2] == s2[3].args[2]
+            if not exch:
+                why = 'loop body is not an exchange of lhs[k] and rhs[k] read before either is written'
+            elif sp.expand(k1 - cnt) != 0 or sp.expand(k2 - cnt) != 0:
+                why = 'the exchange walks the index %s (step %d of the loop), not k = 0, 1, 2, ...: on the overlapping ranges of a full-container removal this rotates the wrong way' % (k1, 0)
+            elif siz is not None and not a.prove_eq(T, siz):
+                why = 'exchanges %s bytes, not siz' % T
+            else:
+                ok = True
+    if ok:
+        rep.ok('B5', 'a_swap', 'exchanges lhs[k], rhs[k] for k = 0..siz-1 in ascending order (%d overlapping call site(s) in the removal routines rely on it)' % sites,
+               loc=fn.loc(fn.entry.term))
+    else:
+        rep.bad('B5', 'a_swap', why, loc=fn.loc(fn.entry.term), key='a_swap: ascending exchange')
